@@ -1,6 +1,9 @@
 package protocol
 
-import "bytes"
+import (
+	"bytes"
+	"reflect"
+)
 
 // C20: malformed length fields from the network cannot crash or balloon the client.
 // The frame is N fully symbolic bytes (size prefix included) read through a protocol.Conn exactly as the
@@ -100,4 +103,44 @@ func VH_C20_RawExchange(N int) {
 	msg, err := conn.RoundTrip(req)
 	vhAssert(vhAny(msg != nil, err != nil), "raw-exchange-outcome-is-message-or-error")
 	vhReach("c20-raw-exchange")
+}
+
+// Unit level: the decode function of one schema element (as the reflection compiler builds it for a message
+// field) on N arbitrary bytes, flexible (compact, unsigned-varint lengths up to 10 bytes wide) and not. The
+// whole-message harness reaches the first length field of a flexible message only after its header and fixed
+// fields; here every byte of a full-width varint length or count is symbolic.
+type vhC20Elem struct {
+	A int16  `kafka:"min=v0,max=v0"`
+	S string `kafka:"min=v0,max=v0,nullable"`
+}
+
+func VH_C20_DecodeValue(kind, N, mode int) {
+	vhAllocLimit(vhC20AllocLimit)
+	vhSplitCap(N)
+	data := vhBytes("value", N)
+	remain := N
+	if mode == 2 {
+		remain = int(vhInt32("announced"))
+		vhAssume(remain >= N)
+	}
+	d := &decoder{reader: bytes.NewReader(data), remain: remain}
+	flexible := kind%2 == 1
+	tag := structTag{MinVersion: 0, MaxVersion: 0, TagID: -2, Nullable: kind >= 10}
+	var target interface{}
+	switch (kind % 10) / 2 {
+	case 0:
+		target = new([]int32)
+	case 1:
+		target = new([]vhC20Elem)
+	case 2:
+		target = new(string)
+	case 3:
+		target = new([]byte)
+	case 4:
+		target = new([]string)
+	}
+	dec := decodeFuncOf(reflect.TypeOf(target).Elem(), 0, flexible, tag)
+	dec(d, valueOf(target))
+	d.discardAll()
+	vhReach("c20-decode-value")
 }
